@@ -50,19 +50,19 @@ func parseUrlPath(pathStr string, m meta.Definition) ([]*Path, error) {
 		if !hasDefs {
 			return nil, fmt.Errorf("%w. %s has nothing below it to find %s", fc.BadRequestError, p.Meta.Ident(), ident)
 		}
-		seg.Meta = meta.Find(parent, ident)
-		if seg.Meta == nil {
-			// check for fully qualified ident
-			if colon := strings.IndexRune(ident, ':'); colon > 0 {
-				module := ident[:colon]
-				ident = ident[colon+1:]
-				potential := meta.Find(parent, ident)
-				if potential != nil {
-					if meta.OriginalModule(potential).Ident() == module {
-						seg.Meta = potential
-					}
+		if colon := strings.IndexRune(ident, ':'); colon > 0 {
+			// qualified ident: the name counts only when the module named, by its name
+			// or its prefix, is the one that defines the node
+			module := ident[:colon]
+			ident = ident[colon+1:]
+			if potential := meta.Find(parent, ident); potential != nil {
+				definedBy := meta.OriginalModule(potential)
+				if definedBy.Ident() == module || definedBy.Prefix() == module {
+					seg.Meta = potential
 				}
 			}
+		} else {
+			seg.Meta = meta.Find(parent, ident)
 		}
 		if seg.Meta == nil {
 			return nil, fmt.Errorf("%w. %s not found in %s", fc.NotFoundError, ident, p.Meta.Ident())
